@@ -17,6 +17,7 @@ type check struct {
 	thoroughBudget  float64
 	gomaxprocs      int
 	noReplayConfirm bool
+	parts           []*check // further binaries whose results are merged into this check (same property id)
 }
 
 func (c *check) test() string {
@@ -41,6 +42,23 @@ func reg(c check) {
 	}
 	if cc.thoroughBudget == 0 {
 		cc.thoroughBudget = 900
+	}
+	for i, p := range cc.parts {
+		pp := *p
+		pp.id = cc.id
+		if pp.quickShards == 0 {
+			pp.quickShards = 1
+		}
+		if pp.thoroughShards == 0 {
+			pp.thoroughShards = pp.quickShards
+		}
+		if pp.quickBudget == 0 {
+			pp.quickBudget = 90
+		}
+		if pp.thoroughBudget == 0 {
+			pp.thoroughBudget = 900
+		}
+		cc.parts[i] = &pp
 	}
 	registry[c.id] = &cc
 }
@@ -93,5 +111,7 @@ func init() {
 	reg(check{id: "C17", bin: plainRoot, engine: "enum", quickShards: 2, thoroughShards: 16})
 	reg(check{id: "C15", bin: plainRoot, engine: "enum", quickShards: 4, thoroughShards: 16})
 	reg(check{id: "C02", bin: simRoot, engine: "gosim", quickShards: 8, thoroughShards: 16, gomaxprocs: 1})
+	reg(check{id: "C33", bin: plainCmds, engine: "enum", quickShards: 1, thoroughShards: 1,
+		parts: []*check{{bin: simRoot, testName: "TestVerif_C33R", engine: "gosim", gomaxprocs: 1, quickShards: 8, thoroughShards: 16}}})
 	reg(check{id: "C24", bin: simRoot, engine: "gosim", quickShards: 8, thoroughShards: 16, gomaxprocs: 1})
 }
